@@ -86,3 +86,31 @@ func VH_C20D() {
 		vAssert(got == want, "C20: same value as time.ParseDuration (fractions)")
 	}
 }
+
+// VH_C20M: multi-component texts next to the overflow boundary, differentially.
+// 1..4 components of <n arbitrary digits>h (optionally a leading sign): the
+// running total must be checked after every component, as time.ParseDuration
+// does - a wrapped-around sum must not be accepted.
+func VH_C20M() {
+	parts := vChoose(vParam("parts", 4)) + 1
+	nd := vParam("digits", 7)
+	b := make([]byte, 0, 64)
+	if vBool() {
+		b = append(b, '-')
+	}
+	for p := 0; p < parts; p++ {
+		for i := 0; i < nd; i++ {
+			b = append(b, '0'+vByte()%10)
+		}
+		b = append(b, 'h')
+	}
+	s := string(b)
+	got, err := ParseDuration(s)
+	want, werr := time.ParseDuration(s)
+	vCover("C20M:parsed")
+	vAssert((err == nil) == (werr == nil), "C20: the same accept/reject decision as time.ParseDuration (several components)")
+	if werr == nil && err == nil {
+		vCover("C20M:accepted")
+		vAssert(got == want, "C20: same value as time.ParseDuration (several components)")
+	}
+}
